@@ -61,9 +61,13 @@ def run(ctx):
     mc = rc.model_check("W4" if ctx.quick else "W5")
     specs, meta = specs_for(ctx)
     tr, episodes, fails = rc.run_and_validate(specs)
+    # third trace source: the repository's own test suite under /verif's pytest plugin
+    str_, sepisodes, sfails, smeta = rc.validate_suite()
+    fails = fails + sfails
     evals, nontrivial = rc.nontrivial_count(episodes)
     sample = next((e for ep in episodes for e in ep if e["k"] == "eval" and e["out"] == "fail"), episodes[0][1])
-    cov = {"states": mc.distinct + tr.states, "transitions": mc.generated + tr.transitions,
+    cov = {"repository_suite_rule_evaluations_validated": smeta["evaluations"], "repository_suite_skipped": smeta["skipped"],
+           "states": mc.distinct + tr.states + str_.states, "transitions": mc.generated + tr.transitions + str_.transitions,
            "model_states": mc.distinct, "model_transitions": mc.generated,
            "traces_validated_against_impl": len(episodes), "trace_events": tr.events,
            "evaluations": evals, "distinct_nontrivial": nontrivial,
@@ -77,5 +81,8 @@ def run(ctx):
 
 def replay(ctx, rp):
     spec = rp["spec"]
+    if spec.get("driver") == "suite":
+        tr, episodes, fails, _ = rc.validate_suite()
+        return CheckResult(fails=fails, coverage={"replayed_events": tr.events})
     tr, episodes, fails = rc.run_and_validate([spec], procs=1)
     return CheckResult(fails=fails, coverage={"replayed_events": tr.events})
